@@ -7,6 +7,12 @@ package consensus
 /*@
 immutable RaftNode.db, RaftNode.balloon, RaftNode.log, RaftNode.metrics, RaftNode.hasherF by NewRaftNodeWithLogger, NewRaftNode, RaftNode.Close
 
+// the node's counters exist once the node is built
+typeinv raftNodeMetrics by newRaftNodeMetrics: !isnil(self.Version) && !isnil(self.Adds) && !isnil(self.MembershipQueries) && !isnil(self.DigestMembershipQueries) && !isnil(self.IncrementalQueries)
+func newRaftNodeMetrics
+  props C11
+  ensures result != nil && fresh(result)
+
 // ---- C05 / C07: the replay filter ---------------------------------------------------
 // An entry is applied iff its raft index is beyond the last applied one (or nothing
 // was applied yet). The explicit panic (by design) fires only for an entry that
@@ -45,6 +51,48 @@ func RaftNode.Apply
   modifies everything, mutateCalls, lastMutations, lastMetadata
   ensures C07/at-most-one-write: mutateCalls == old(mutateCalls) || mutateCalls == old(mutateCalls) + 1
   ensures C07/replayed-entry-writes-nothing: old(n.state.Index) != 0 && l.Index <= old(n.state.Index) ==> mutateCalls == old(mutateCalls)
+
+// ---- C11: what the API layer can make the node propose ----------------------------------
+
+// ASSUMED (raft and the FSM together): a successful proposal of an add command
+// is answered with the FSM's response, which carries one non-nil snapshot per event
+func RaftNode.propose
+  modifies everything, proposeCalls
+  assumes proposeCalls == old(proposeCalls) + 1
+  assumes isnil(result_1) ==> istype(result_0, *fsmResponse) && dyn(result_0, *fsmResponse) != nil && istype(dyn(result_0, *fsmResponse).val, []*balloon.Snapshot)
+  assumes isnil(result_1) ==> forall k int :: 0 <= k && k < len(dyn(dyn(result_0, *fsmResponse).val, []*balloon.Snapshot)) ==> dyn(dyn(result_0, *fsmResponse).val, []*balloon.Snapshot)[k] != nil
+
+// an empty bulk is refused before anything is proposed; otherwise exactly one command is proposed
+func RaftNode.AddBulk
+  props C05 C11
+  requires n.hasherF != nil && pure_fn(n.hasherF) && nonnil_fn(n.hasherF)
+  modifies everything, proposeCalls
+  ensures C11/empty-bulk-never-proposed: len(bulk) == 0 ==> proposeCalls == old(proposeCalls) && !isnil(result_1)
+  ensures C11/at-most-one-proposal: proposeCalls == old(proposeCalls) || proposeCalls == old(proposeCalls) + 1
+  // ASSUMED (C05 for the balloon, carried through raft): one snapshot per event
+  assumes isnil(result_1) ==> len(result_0) == len(bulk)
+  loop 1 modifies nothing
+  loop 2 modifies nothing
+
+func RaftNode.Add
+  props C05 C11
+  requires n.hasherF != nil && pure_fn(n.hasherF) && nonnil_fn(n.hasherF)
+  modifies everything, proposeCalls
+
+func RaftNode.QueryDigestMembership
+  props C11
+  requires n.metrics != nil && n.balloon != nil && HyperOK(n.balloon.hyperTree) && n.balloon.historyTree != nil && n.balloon.hasherF != nil
+  may_panic
+  modifies everything
+func RaftNode.QueryDigestMembershipConsistency
+  props C11
+  requires n.metrics != nil && n.balloon != nil && HyperOK(n.balloon.hyperTree) && n.balloon.historyTree != nil && n.balloon.hasherF != nil
+  may_panic
+  modifies everything
+func RaftNode.QueryConsistency
+  props C11
+  requires n.metrics != nil && n.balloon != nil && n.balloon.historyTree != nil && n.balloon.hasherF != nil
+  modifies everything
 
 func newCommandFromRaft
   props C11
